@@ -12,7 +12,7 @@ static vh_key_t K1, K2, KW, KEC, KED, KRSA;
 static jwk_set_t *kset;
 static const jwk_item_t *I1, *I1A, *I2, *IW, *IECpriv, *IECpub, *IED, *IRSA, *IRSApub;
 
-#define NTOK 42
+#define NTOK 44
 static char *TOK[NTOK];
 static const char *TOKNAME[NTOK] = { "NULL", "empty", "no-dots", "one-dot", "header-not-base64", "header-not-json", "unknown-alg", "missing-alg",
 	"non-string-alg", "payload-not-json", "expired", "not-yet-valid", "wrong-iss", "alg-none-unsigned", "wrong-alg-HS384", "bad-signature",
@@ -20,7 +20,8 @@ static const char *TOKNAME[NTOK] = { "NULL", "empty", "no-dots", "one-dot", "hea
 	"kid-k2(valid under K2)", "kid-weak(callback picks too-small key)", "huge-valid", "valid-none-token", "wrong-aud",
 	"payload-json-array", "payload-json-array-signed-valid", "header-json-array", "payload-empty-object-unsigned",
 	"rs256-valid", "rs256-bad-signature",
-	"aud-is-list-with-x", "aud-is-list-without-x", "iss-is-number", "sub-is-null", "aud-is-null", "iss-is-list", "iss-sub-aud-right", "sub-wrong", "aud-is-object" };
+	"aud-is-list-with-x", "aud-is-list-without-x", "iss-is-number", "sub-is-null", "aud-is-null", "iss-is-list", "iss-sub-aud-right", "sub-wrong", "aud-is-object",
+	"kid-ecpub(valid, callback picks the public EC JWK)", "kid-ecpriv(valid, callback picks the private EC JWK)" };
 
 static char *mk(const vh_key_t *k, int alg, const char *hdr, const char *pl) { return vh_ref_token(k, alg, hdr, pl); }
 
@@ -74,6 +75,10 @@ static void build_pool(void)
 	TOK[39] = mk(&K1, JWT_ALG_HS256, H, "{\"iss\":\"me\",\"sub\":\"s\",\"aud\":\"x\"}");
 	TOK[40] = mk(&K1, JWT_ALG_HS256, H, "{\"iss\":\"me\",\"sub\":\"t\",\"aud\":\"x\"}");
 	TOK[41] = mk(&K1, JWT_ALG_HS256, H, "{\"iss\":\"me\",\"sub\":\"s\",\"aud\":{\"x\":1}}");
+	/* the same EC key reached in its public and in its private JWK form (public first: its pristine verdict is taken before
+	 * any verification with a private key has happened in the process) */
+	TOK[42] = mk(&KEC, JWT_ALG_ES256, "{\"alg\":\"ES256\",\"kid\":\"ecpub\"}", "{\"iss\":\"me\",\"aud\":\"x\"}");
+	TOK[43] = mk(&KEC, JWT_ALG_ES256, "{\"alg\":\"ES256\",\"kid\":\"ecpriv\"}", "{\"iss\":\"me\",\"aud\":\"x\"}");
 }
 
 /* checker callback: select key by kid */
@@ -87,6 +92,8 @@ static int kid_cb(jwt_t *jwt, jwt_config_t *cfg)
 	if (!strcmp(v.str_val, "bad")) { cfg->key = IECpub; cfg->alg = JWT_ALG_ES256; }
 	else if (!strcmp(v.str_val, "k2")) { cfg->key = I2; cfg->alg = JWT_ALG_HS256; }
 	else if (!strcmp(v.str_val, "weak")) { cfg->key = IW; cfg->alg = JWT_ALG_HS256; }
+	else if (!strcmp(v.str_val, "ecpub")) { cfg->key = IECpub; cfg->alg = JWT_ALG_ES256; }
+	else if (!strcmp(v.str_val, "ecpriv")) { cfg->key = IECpriv; cfg->alg = JWT_ALG_ES256; }
 	return 0;
 }
 
